@@ -45,6 +45,10 @@ def resolve(function: ValidResolvers, params: Dict, mappings: Dict[str, Dict], c
     if isinstance(function, (int, float, date, IPv4Network, IPv6Network)):
         return str(function)
 
+    if isinstance(function, (bytes, bytearray)):
+        # A decoded binary value (BinaryEquals) is data: there is nothing to resolve in it
+        return function
+
     if isinstance(function, list):
         result = []
         for entry in function:
